@@ -32,13 +32,13 @@ Bad(rule, info) ==
                                  devs |-> SetSeq(Devs(cur))]))
   /\ nbad' = nbad + 1 /\ UNCHANGED cl
 
-TInit == RInit /\ l = 1 /\ cl = 0 /\ nbad = 0
+TrInit == RInit /\ l = 1 /\ cl = 0 /\ nbad = 0
 
-TCase == /\ IsEv("case") /\ NewCase(e.c) /\ Adv /\ cl' = l /\ nbad' = nbad
+TrCase == /\ IsEv("case") /\ NewCase(e.c) /\ Adv /\ cl' = l /\ nbad' = nbad
 
-TSkip == /\ IsEv("skip") /\ Adv /\ Good /\ UNCHANGED rvars
+TrSkip == /\ IsEv("skip") /\ Adv /\ Good /\ UNCHANGED rvars
 
-TLoad ==
+TrLoad ==
   /\ IsEv("load") /\ Adv
   /\ IF phase = "idle" /\ e.out \in LoadOutcomes(cur)
      THEN Load(e.out) /\ Good
@@ -47,12 +47,12 @@ TLoad ==
           /\ UNCHANGED <<cur, objs, den>>
 
 (* second load path (from_value): must agree with the first (C14) *)
-TLoad2 ==
+TrLoad2 ==
   /\ IsEv("load2") /\ Adv /\ UNCHANGED rvars
   /\ IF (e.out = "ok") = (phase = "loaded") /\ e.out # "panic" THEN Good
      ELSE Bad(IF e.out = "panic" THEN "load_panic" ELSE "load_paths_differ", e.out)
 
-TOpt ==
+TrOpt ==
   /\ IsEv("opt") /\ Adv
   /\ IF phase = "loaded" /\ IsSw(e.sw) /\ e.obj = Len(objs) /\ e.out = "ok"
      THEN Optimise(e.obj, e.sw, e.out) /\ Good
@@ -61,7 +61,7 @@ TOpt ==
           /\ UNCHANGED <<cur, phase, den>>
 
 OutBool(o) == o = "t"
-TMatch ==
+TrMatch ==
   /\ IsEv("match") /\ Adv
   /\ LET d == e.d + 1 v == OutBool(e.out) IN
      IF e.out \in {"t", "f"} /\ phase = "loaded" /\ e.obj + 1 \in DOMAIN objs /\ d \in DOMAIN cur.docs
@@ -71,11 +71,11 @@ TMatch ==
                  ELSE IF d \in DOMAIN den /\ den[d] # v THEN "den"
                  ELSE "oracle",
                  [obj |-> e.obj, d |-> e.d, out |-> e.out,
-                  lang |-> IF d \in DOMAIN cur.docs /\ HasOracle(cur) THEN SetSeq(LangEval(cur.src, cur.docs[d])) ELSE <<>>,
+                  lang |-> IF d \in DOMAIN cur.docs /\ HasOracle(cur) THEN SetSeq(TriAllowed(d)) ELSE <<>>,
                   sw |-> IF e.obj + 1 \in DOMAIN objs THEN objs[e.obj + 1].sw ELSE <<>>])
           /\ UNCHANGED rvars
 
-TTri ==
+TrTri ==
   /\ IsEv("tri") /\ Adv
   /\ LET d == e.d + 1 IN
      IF e.out \in Tri /\ phase = "loaded" /\ e.obj + 1 \in DOMAIN objs /\ d \in DOMAIN cur.docs
@@ -85,13 +85,13 @@ TTri ==
                  ELSE IF e.out = "X" THEN "tri_both"
                  ELSE IF e.out \in Tri /\ e.out \in TriAllowed(d) THEN "den" ELSE "tri_oracle",
                  [obj |-> e.obj, d |-> e.d, out |-> e.out,
-                  lang |-> IF d \in DOMAIN cur.docs /\ HasOracle(cur) THEN SetSeq(LangEval(cur.src, cur.docs[d])) ELSE <<>>,
+                  lang |-> IF d \in DOMAIN cur.docs /\ HasOracle(cur) THEN SetSeq(TriAllowed(d)) ELSE <<>>,
                   sw |-> IF e.obj + 1 \in DOMAIN objs THEN objs[e.obj + 1].sw ELSE <<>>])
           /\ UNCHANGED rvars
 
-TNext == TCase \/ TSkip \/ TLoad \/ TLoad2 \/ TOpt \/ TMatch \/ TTri
+TrNext == TrCase \/ TrSkip \/ TrLoad \/ TrLoad2 \/ TrOpt \/ TrMatch \/ TrTri
 
-TSpec == TInit /\ [][TNext]_tvars
+TrSpec == TrInit /\ [][TrNext]_tvars
 
 (* the whole trace was consumed: one state per line plus the initial state *)
 TraceAccepted ==
